@@ -105,14 +105,15 @@ Definition ips_of_tok (s : string) : option (list ip) :=
      match l with
      | [] => Some []
      | t :: r => match ip_of_tok t, go r with Some i, Some is => Some (i :: is) | _, _ => None end
-     end) (split "+"%char s).
+     end) (Text.split "+"%char s).
 
 Definition dispatch (kind : string) (args : list string) : string :=
   if String.eqb kind "t6" then
     match args with
     | ctok :: t0 :: optoks =>
         match cfg_of_tok ctok, Z_of_dec t0, ops_of_toks optoks with
-        | Some c, Some t0, Some ops =>
+        | Some c, Some t0, Some ops0 =>
+            let ops := map (debyte c) ops0 in
             match new_session c t0 with
             | Ok s0 =>
                 let '(tr, (dup, dup2, bad)) := run6 c s0 [(own_mac c, own_ip4 c); (rt_mac c, rt_ip4 c)] ops in
@@ -130,7 +131,8 @@ Definition dispatch (kind : string) (args : list string) : string :=
     match args with
     | ctok :: t0 :: itok :: optoks =>
         match cfg_of_tok ctok, Z_of_dec t0, ips_of_tok itok, ops_of_toks optoks with
-        | Some c, Some t0, Some ips, Some ops =>
+        | Some c, Some t0, Some ips, Some ops0 =>
+            let ops := map (debyte c) ops0 in
             match new_session c t0 with
             | Ok s0 =>
                 match run6c c (sort_by ip_leb ips) s0 (rinit c t0) ops with
